@@ -25,7 +25,7 @@ TASK: produce TWO different, independent source changes ("A" and "B") to the pro
  3. looks like a plausible maintenance slip or well-meant refactoring/optimisation (not sabotage, no dead `if (magic)`),
  4. needs something SPECIFIC to manifest: an unusual-but-valid schema shape, a particular multi-step call sequence, a particular buffer length or header value, a specific build mode (checked/unchecked, C++ standard), a particular fault or interleaving of I/O outcomes, or two cooperating sites that each look fine alone. Changes that ordinary use exposes at once are not interesting.
 The two changes must sit in different code areas and fail for different reasons.
-
+{emphasis}
 {avoid}{hint}
 How to build and test (everything is offline; all tools are installed; the machine is shared, keep to -j4):
   cmake -G Ninja -S {wt} -B {wt}/_build -DCMAKE_BUILD_TYPE=RelWithDebInfo -DSBEPP_BUILD_TESTS=ON -DSBEPP_DEV_MODE=ON -DSBEPP_SEPARATE_TESTS=ON -DSBEPP_BUILD_SBEPPC=ON -DCMAKE_CXX_FLAGS=-Wno-error -DCMAKE_PREFIX_PATH=/root/miniconda
@@ -54,7 +54,7 @@ def main():
         open(os.path.join(out, 'property.json'), 'w').write(pj)
         strict = os.environ.get('AGENT_PROMPT_STRICT', '1') == '1'  # strict: only the property text and the worktree (nothing derived from /verif)
         avoid = '' if strict else 'These changes were already proposed for this property by others; do NOT repeat them or close variants of them:\n' + '\n'.join(' - ' + c for c in by.get(p, [])) + '\n\n'
-        s = T.format(wt=wt, out=out, prop=pj, avoid=avoid, hint='' if strict else HINTS[p] + '\n')
+        s = T.format(wt=wt, out=out, prop=pj, avoid=avoid, hint='' if strict else HINTS[p] + '\n', emphasis=os.environ.get('AGENT_PROMPT_EMPHASIS', ''))
         open(os.path.join(V, 'work', 'agents', 'r%s_%s.txt' % (rnd, p)), 'w').write(s)
         print('wrote', p)
 main()
